@@ -236,6 +236,31 @@ func runStr(c *h.Ctx, cs StrCase) {
 			return
 		}
 	}
+	// a parsed selector is a value: what it means does not depend on what it has been applied to before. The
+	// loop above used p and p2 side by side; here p (used) stands against a parse that has never been used, on
+	// every panel value in both orders, and its segments against a fresh parse of the same text.
+	for pass := 0; pass < 2; pass++ {
+		for k := range panel {
+			i := k
+			if pass == 1 {
+				i = len(panel) - 1 - k
+			}
+			fresh, err := selector.Parse(printed)
+			if err != nil {
+				break
+			}
+			if a, b := selectOn(p, panel[i]), selectOn(fresh, panel[i]); a != b {
+				c.Fail("C14/selector/meaning-changes-with-use", "selector %q after having been applied to other values gives %+v on panel[%d]; a fresh parse of its print %q gives %+v", cs.S, a, i, printed, b)
+				return
+			}
+		}
+	}
+	if fresh, err := selector.Parse(cs.S); err == nil {
+		if ok, why := sameSegments(p, fresh); !ok {
+			c.Fail("C14/selector/meaning-changes-with-use", "segments of Parse(%q) after use differ from a fresh parse: %s", cs.S, why)
+			return
+		}
+	}
 	if cs.Intent != nil {
 		// intended segments, via the accessors; a leading bracket segment is
 		// written ".[...]" and parses as identity + segment
@@ -679,6 +704,28 @@ func runPol(c *h.Ctx, pc PolCase) {
 				}
 				if a1 != b1 || a2 != b2 {
 					c.Fail("C14/policy/constructed-roundtrip-behaviour", "constructed policy and its IPLD round trip match differently on data[%d]=%s: (%v,%v) vs (%v,%v)\n%s", i, d, a1, a2, b1, b2, pcst)
+					return
+				}
+			}
+			// ... also when the constructed policy has been used before and the round-tripped copy has not
+			for k := 2*len(pc.Data) - 1; k >= 0; k-- {
+				i := k % len(pc.Data)
+				dn := pc.Data[i].Node()
+				p4, err := policy.FromIPLD(n2)
+				if err != nil {
+					break
+				}
+				var a1, a2, b1, b2 bool
+				if pn, _, _ := h.Try(func() {
+					a1, _ = pcst.Match(dn)
+					a2, _ = pcst.PartialMatch(dn)
+					b1, _ = p4.Match(dn)
+					b2, _ = p4.PartialMatch(dn)
+				}); pn {
+					continue
+				}
+				if a1 != b1 || a2 != b2 {
+					c.Fail("C14/policy/constructed-roundtrip-behaviour/after-use", "constructed policy (already matched against other data) and a fresh IPLD round trip of it match differently on data[%d]=%s: (%v,%v) vs (%v,%v)\n%s", i, pc.Data[i], a1, a2, b1, b2, pcst)
 					return
 				}
 			}
